@@ -39,6 +39,18 @@ if __name__ == "__main__":
               + (f"; not caught by the owning check: {', '.join(still)}" if still else "") + ".  The eleven first-run misses and what became of each:\n\n"
               + "\n".join(f"* `{k}` — {v}" for k, v in sorted(SEEDED_NOTES.items())))
     sec = open(os.path.join(os.path.dirname(__file__), "SESSION3_SECTION.md")).read()
+    # 13.3: the model files as they are now, with their Model-level imports and line counts
+    mods = []
+    for f in sorted(glob.glob(os.path.join(V, "lean", "RichModel", "Model", "*.lean"))):
+        src = open(f, encoding="utf-8").read(); name = os.path.basename(f)[:-5]
+        imps = re.findall(r"^import RichModel\.(?:Model|Gen)\.(\w+)", src, flags=re.M)
+        mods.append(f"| {name} | {src.count(chr(10))} | {', '.join(imps) if imps else '—'} |")
+    sec += ("\n### 13.3 The model files as they are now (supersedes the list of 35 in section 6)\n\n"
+            f"{len(mods)} files under `lean/RichModel/Model/`, all importing nothing outside `RichModel.Model` / `RichModel.Gen` (each native driver links without Mathlib); "
+            "`RichModel/AllModels.lean` imports all of them at once and builds, so no two models declare the same name.  Files added by the third session: "
+            "Lru, SegmentExtra (C13); TextStr, TextFrag (C05); PrettyConsole (C16); TableRows (C07); AnsiPrint (C03); ProgressFmt (C12); SyntaxTrace (C17); "
+            "ConsoleFormat, ConsoleLogTime (C15); FramesBarsStyled (C08); StyleCtor (C06); MarkupHL (C04); TermStyle, LiveCrop (C10) and those named in the table of 13.1.\n\n"
+            "| model file | lines | imports (Model / Gen) |\n|---|---|---|\n" + "\n".join(mods) + "\n")
     sec = sec.replace("@@ROWS@@", rows).replace("@@FINDINGS@@", "\n".join(FINDINGS)).replace("@@SEEDED@@", seeded)
     p = os.path.join(V, "DESIGN.md"); s = open(p).read()
     s = re.sub(r"\n-{20,}\n\n## 13\. Third session.*\Z", "", s, flags=re.S)
